@@ -78,12 +78,23 @@ func H17_backpressure() {
 // preemption bound; what the sender would put on the wire must be exactly the
 // two packets, whole, in either order.
 func H17_two_writers() {
+	// producer/consumer cursors k bytes before the wrap point
+	vrtTwoWriters(int64(vrtChoice("before_wrap", vrtBound("N17wrap", 14))), 0)
+}
+
+// H17_two_large_writers: the same with packets of more than 5000 bytes (three symbolic bytes in front of a
+// fixed filler), the ring about to wrap inside the first or the second packet or not at all (round-8
+// change C18-16: packets above 4096 bytes were encoded into the connection's scratch buffer BEFORE the
+// write mutex was taken).
+func H17_two_large_writers() {
+	vrtTwoWriters([]int64{0, 3, 5005, 7000, 12000}[vrtChoice("before_wrap", 5)], 5000)
+}
+
+func vrtTwoWriters(k int64, filler int) {
 	bf, err := newBuffer(1)
 	if err != nil {
 		panic(err)
 	}
-	// producer/consumer cursors k bytes before the wrap point
-	k := int64(vrtChoice("before_wrap", vrtBound("N17wrap", 14)))
 	c := 2*bf.size - k
 	bf.cseq.set(c)
 	bf.pseq.set(c)
@@ -92,6 +103,9 @@ func H17_two_writers() {
 	mk := func(topic byte, name string) (*message.PublishMessage, []byte) {
 		m := message.NewPublishMessage()
 		payload := []byte{vrtByte(name + ".p0"), vrtByte(name + ".p1"), vrtByte(name + ".p2")}
+		for i := 0; i < filler; i++ {
+			payload = append(payload, topic+byte(i%7))
+		}
 		m.SetTopic([]byte{topic})
 		m.SetPayload(payload)
 		return m, specEncode(&specPkt{Typ: specPUBLISH, Topic: []byte{topic}, Payload: payload})
